@@ -56,6 +56,9 @@ def escapes(name, v, t):
     return False
 
 
+THREAD_REPLICA = False   # this monitor uses a process-wide sys.monitoring probe / has its own thread trials
+
+
 def shards(tier):
     # eu.vat and vatin only dispatch to national modules, each of which is monitored itself (C09 ties the
     # wrappers to them); their neighbours can fall under another country's or scheme's rule
